@@ -297,6 +297,26 @@ def judge(d):
                         return out
                     if not binned:
                         check_subtomograms(f"{tag} group {kk}", sub)
+                # group-wise apply: row i of each group's table belongs to molecule i of that group
+                if not binned:
+                    def f_centre(a):
+                        return float(a[1, 1, 1])
+
+                    def f_corner(a):
+                        return float(a[0, 0, 0])
+
+                    tabs = grp.apply([f_centre, f_corner], schema=["centre", "corner"])
+                    for kk, rows_k in want.items():
+                        df = tabs.get(kk)
+                        if df is None or df.height != len(rows_k) or df.columns != ["centre", "corner"]:
+                            out.append(viol("C03/group-apply-shape", f"{tag}: group {kk}: apply table {None if df is None else (df.shape, df.columns)} for {len(rows_k)} molecules"))
+                            continue
+                        for i, r in enumerate(rows_k):
+                            t_, z_, y_, x_ = decode(df["centre"][i])
+                            if (t_ - 1, (z_, y_, x_)) != (r.tomo, r.pos):
+                                out.append(viol("C03/group-apply-row", f"{tag}: group {kk} ({len(rows_k)} molecules, 2 functions): row {i} column 'centre' decodes to tomogram {t_ - 1} "
+                                                f"{(z_, y_, x_)} but molecule {i} is uid {r.uid} at {r.pos}"))
+                                break
                 # derived group, consumed twice
                 dk = op["derive"]
                 if dk == "head":
